@@ -31,7 +31,7 @@ template<class F> static void probe(const std::string& sname, const std::string&
 }
 
 // value selector: 0 = small values, 1 = widest values
-template<class T> static T V(int w, T small) { return w ? std::numeric_limits<T>::max() : small; }
+template<class T> static T VAL(int w, T small) { return w ? std::numeric_limits<T>::max() : small; }
 
 struct Case { int st; uint32_t mask; int w; size_t pad; std::string str() const { return "st=" + std::to_string(st) + ";mask=" + std::to_string(mask) + ";w=" + std::to_string(w) + ";pad=" + std::to_string(pad); } };
 
@@ -43,86 +43,117 @@ static const int NBITS[] = {2, 2, 17, 1, 2, 4, 2, 4, 1, 6, 16, 2, 4, 3, 3, 2, 9,
 static StorageParameters mk_sp(uint32_t m, int w) {
     StorageParameters sp; if (w) { sp.ticks_per_second = UINT64_MAX; sp.max_block_items = UINT64_MAX; sp.storage_hints.query_response_hints = 0xffffffffu; sp.storage_hints.query_response_signature_hints = 0xffffffffu; sp.storage_hints.rr_hints = 255; sp.storage_hints.other_data_hints = 255; }
     std::string txt = w ? std::string(300, 't') : std::string("t");
-    if (m & 1) sp.storage_flags = (StorageFlagsMask)(w ? 255 : 1); if (m & 2) sp.client_address_prefix_ipv4 = V<uint8_t>(w, 24); if (m & 4) sp.client_address_prefix_ipv6 = V<uint8_t>(w, 0);
-    if (m & 8) sp.server_address_prefix_ipv4 = V<uint8_t>(w, 1); if (m & 16) sp.server_address_prefix_ipv6 = V<uint8_t>(w, 23); if (m & 32) sp.sampling_method = txt; if (m & 64) sp.anonymization_method = txt;
+    if (m & 1) sp.storage_flags = (StorageFlagsMask)(w ? 255 : 1); if (m & 2) sp.client_address_prefix_ipv4 = VAL<uint8_t>(w, 24); if (m & 4) sp.client_address_prefix_ipv6 = VAL<uint8_t>(w, 0);
+    if (m & 8) sp.server_address_prefix_ipv4 = VAL<uint8_t>(w, 1); if (m & 16) sp.server_address_prefix_ipv6 = VAL<uint8_t>(w, 23); if (m & 32) sp.sampling_method = txt; if (m & 64) sp.anonymization_method = txt;
     if (m & 128) { sp.opcodes.clear(); sp.rr_types.clear(); }
     if (m & 256) { sp.opcodes.assign(300, (OpCodes)255); sp.rr_types.assign(300, (RrTypes)65535); }
     return sp;
 }
 static CollectionParameters mk_cp(uint32_t m, int w) {
     CollectionParameters c; std::string txt = w ? std::string(300, 'c') : std::string("");
-    if (m & 1) c.query_timeout = V<uint64_t>(w, 5); if (m & 2) c.skew_timeout = V<uint64_t>(w, 0); if (m & 4) c.snaplen = V<uint64_t>(w, 24); if (m & 8) c.promisc = (bool)w;
+    if (m & 1) c.query_timeout = VAL<uint64_t>(w, 5); if (m & 2) c.skew_timeout = VAL<uint64_t>(w, 0); if (m & 4) c.snaplen = VAL<uint64_t>(w, 24); if (m & 8) c.promisc = (bool)w;
     if (m & 16) c.interfaces = w ? std::vector<std::string>(30, txt) : std::vector<std::string>{}; if (m & 32) c.server_address = w ? std::vector<std::string>{std::string(16, '\xfe'), std::string()} : std::vector<std::string>{};
     if (m & 64) c.vlan_ids = w ? std::vector<uint16_t>(25, 65535) : std::vector<uint16_t>{}; if (m & 128) c.filter = txt; if (m & 256) c.generator_id = txt; if (m & 512) c.host_id = txt;
     return c;
 }
 
-static void run_case(const Case& c, Result& R, std::vector<SV>& out) {
-    const std::string rep = c.str(), sn = SN[c.st]; const uint32_t m = c.mask; const int w = c.w;
-    auto P = [&](auto wr) { probe(sn, rep, c.pad, wr, R, out); };
+// builds the object of case c and hands it to the visitor together with its writer (and the writer to use on an object that was read back)
+template<class Vis> static void visit(const Case& c, Vis&& V) {
+    const uint32_t m = c.mask; const int w = c.w;
     index_t ix = w ? std::numeric_limits<index_t>::max() : 0;
+    auto W = [](auto& x, CdnsEncoder& e) { return x.write(e); };
     switch (c.st) {
-    case ST_TS: { Timestamp t((m & 1) ? (w ? (uint64_t)INT64_MAX : 1600000000ULL) : 0, (m & 2) ? (w ? 999999999u : 24u) : 0); P([&](CdnsEncoder& e) { return t.write(e); }); break; }
-    case ST_CT: { ClassType t; if (m & 1) t.type = V<uint16_t>(w, 24); if (m & 2) t.class_ = V<uint16_t>(w, 255); P([&](CdnsEncoder& e) { return t.write(e); }); break; }
+    case ST_TS: { Timestamp t((m & 1) ? (w ? (uint64_t)INT64_MAX : 1600000000ULL) : 0, (m & 2) ? (w ? 999999999u : 24u) : 0); V(t, W, W); break; }
+    case ST_CT: { ClassType t; if (m & 1) t.type = VAL<uint16_t>(w, 24); if (m & 2) t.class_ = VAL<uint16_t>(w, 255); V(t, W, W); break; }
     case ST_SIG: { QueryResponseSignature s;
-        if (m & 1) s.server_address_index = ix; if (m & 2) s.server_port = V<uint16_t>(w, 53); if (m & 4) s.qr_transport_flags = (QueryResponseTransportFlagsMask)(w ? 255 : 0);
-        if (m & 8) s.qr_type = (QueryResponseTypeValues)(w ? 5 : 0); if (m & 16) s.qr_sig_flags = (QueryResponseFlagsMask)(w ? 255 : 1); if (m & 32) s.query_opcode = V<uint8_t>(w, 0);
-        if (m & 64) s.qr_dns_flags = (DNSFlagsMask)(w ? 65535 : 256); if (m & 128) s.query_rcode = V<uint16_t>(w, 0); if (m & 256) s.query_classtype_index = ix; if (m & 512) s.query_qdcount = V<uint16_t>(w, 1);
-        if (m & 1024) s.query_ancount = V<uint32_t>(w, 0); if (m & 2048) s.query_nscount = V<uint16_t>(w, 23); if (m & 4096) s.query_arcount = V<uint16_t>(w, 24); if (m & 8192) s.query_edns_version = V<uint8_t>(w, 0);
-        if (m & 16384) s.query_udp_size = V<uint16_t>(w, 1232); if (m & 32768) s.query_opt_rdata_index = ix; if (m & 65536) s.response_rcode = V<uint16_t>(w, 3);
-        P([&](CdnsEncoder& e) { return s.write(e); }); break; }
-    case ST_Q: { Question q; q.name_index = (m & 1) ? ix : 0; q.classtype_index = ix; P([&](CdnsEncoder& e) { return q.write(e); }); break; }
-    case ST_RR: { RR r; r.name_index = ix; r.classtype_index = 0; if (m & 1) r.ttl = V<uint32_t>(w, 0); if (m & 2) r.rdata_index = ix; P([&](CdnsEncoder& e) { return r.write(e); }); break; }
-    case ST_MMD: { MalformedMessageData d; if (m & 1) d.server_address_index = ix; if (m & 2) d.server_port = V<uint16_t>(w, 0); if (m & 4) d.mm_transport_flags = (QueryResponseTransportFlagsMask)(w ? 255 : 2);
-        if (m & 8) d.mm_payload = w ? std::string(3000, 'm') : std::string(); P([&](CdnsEncoder& e) { return d.write(e); }); break; }
-    case ST_RPD: { ResponseProcessingData d; if (m & 1) d.bailiwick_index = ix; if (m & 2) d.processing_flags = (ResponseProcessingFlagsMask)(w ? 255 : 1); P([&](CdnsEncoder& e) { return d.write(e); }); break; }
-    case ST_QRE: { QueryResponseExtended d; if (m & 1) d.question_index = ix; if (m & 2) d.answer_index = ix; if (m & 4) d.authority_index = ix; if (m & 8) d.additional_index = ix; P([&](CdnsEncoder& e) { return d.write(e); }); break; }
-    case ST_BP: { BlockPreamble b; b.earliest_time = Timestamp(w ? 4294967296ULL : 0, w ? 999999 : 0); if (m & 1) b.block_parameters_index = ix; P([&](CdnsEncoder& e) { return b.write(e); }); break; }
+        if (m & 1) s.server_address_index = ix; if (m & 2) s.server_port = VAL<uint16_t>(w, 53); if (m & 4) s.qr_transport_flags = (QueryResponseTransportFlagsMask)(w ? 255 : 0);
+        if (m & 8) s.qr_type = (QueryResponseTypeValues)(w ? 5 : 0); if (m & 16) s.qr_sig_flags = (QueryResponseFlagsMask)(w ? 255 : 1); if (m & 32) s.query_opcode = VAL<uint8_t>(w, 0);
+        if (m & 64) s.qr_dns_flags = (DNSFlagsMask)(w ? 65535 : 256); if (m & 128) s.query_rcode = VAL<uint16_t>(w, 0); if (m & 256) s.query_classtype_index = ix; if (m & 512) s.query_qdcount = VAL<uint16_t>(w, 1);
+        if (m & 1024) s.query_ancount = VAL<uint32_t>(w, 0); if (m & 2048) s.query_nscount = VAL<uint16_t>(w, 23); if (m & 4096) s.query_arcount = VAL<uint16_t>(w, 24); if (m & 8192) s.query_edns_version = VAL<uint8_t>(w, 0);
+        if (m & 16384) s.query_udp_size = VAL<uint16_t>(w, 1232); if (m & 32768) s.query_opt_rdata_index = ix; if (m & 65536) s.response_rcode = VAL<uint16_t>(w, 3);
+        V(s, W, W); break; }
+    case ST_Q: { Question q; q.name_index = (m & 1) ? ix : 0; q.classtype_index = ix; V(q, W, W); break; }
+    case ST_RR: { RR r; r.name_index = ix; r.classtype_index = 0; if (m & 1) r.ttl = VAL<uint32_t>(w, 0); if (m & 2) r.rdata_index = ix; V(r, W, W); break; }
+    case ST_MMD: { MalformedMessageData d; if (m & 1) d.server_address_index = ix; if (m & 2) d.server_port = VAL<uint16_t>(w, 0); if (m & 4) d.mm_transport_flags = (QueryResponseTransportFlagsMask)(w ? 255 : 2);
+        if (m & 8) d.mm_payload = w ? std::string(3000, 'm') : std::string(); V(d, W, W); break; }
+    case ST_RPD: { ResponseProcessingData d; if (m & 1) d.bailiwick_index = ix; if (m & 2) d.processing_flags = (ResponseProcessingFlagsMask)(w ? 255 : 1); V(d, W, W); break; }
+    case ST_QRE: { QueryResponseExtended d; if (m & 1) d.question_index = ix; if (m & 2) d.answer_index = ix; if (m & 4) d.authority_index = ix; if (m & 8) d.additional_index = ix; V(d, W, W); break; }
+    case ST_BP: { BlockPreamble b; b.earliest_time = Timestamp(w ? 4294967296ULL : 0, w ? 999999 : 0); if (m & 1) b.block_parameters_index = ix; V(b, W, W); break; }
     case ST_BS: { BlockStatistics s; unsigned v = w ? UINT_MAX : 0; if (m & 1) s.processed_messages = v; if (m & 2) s.qr_data_items = v; if (m & 4) s.unmatched_queries = v; if (m & 8) s.unmatched_responses = v; if (m & 16) s.discarded_opcode = v; if (m & 32) s.malformed_items = v;
-        P([&](CdnsEncoder& e) { return s.write(e); }); break; }
+        V(s, W, W); break; }
     case ST_QR: { QueryResponse q; Timestamp early(1000, 0); uint64_t tps = w ? 1000000000ULL : 1000000ULL;
-        if (m & 1) q.time_offset = w ? Timestamp(1000 + 4000000, 999999) : Timestamp(1000, 1); if (m & 2) q.client_address_index = ix; if (m & 4) q.client_port = V<uint16_t>(w, 0); if (m & 8) q.transaction_id = V<uint16_t>(w, 255);
-        if (m & 16) q.qr_signature_index = ix; if (m & 32) q.client_hoplimit = V<uint8_t>(w, 64); if (m & 64) q.response_delay = w ? INT64_MIN : -1; if (m & 128) q.query_name_index = ix;
+        if (m & 1) q.time_offset = w ? Timestamp(1000 + 4000000, 999999) : Timestamp(1000, 1); if (m & 2) q.client_address_index = ix; if (m & 4) q.client_port = VAL<uint16_t>(w, 0); if (m & 8) q.transaction_id = VAL<uint16_t>(w, 255);
+        if (m & 16) q.qr_signature_index = ix; if (m & 32) q.client_hoplimit = VAL<uint8_t>(w, 64); if (m & 64) q.response_delay = w ? INT64_MIN : -1; if (m & 128) q.query_name_index = ix;
         if (m & 256) q.query_size = w ? (std::size_t)UINT64_MAX : 0; if (m & 512) q.response_size = w ? (std::size_t)1 << 32 : 23;
         if (m & 1024) { ResponseProcessingData d; if (w) { d.bailiwick_index = ix; d.processing_flags = (ResponseProcessingFlagsMask)1; } q.response_processing_data = d; }   // w=0: present but empty
         if (m & 2048) { QueryResponseExtended d; if (w) { d.question_index = ix; d.additional_index = 0; } q.query_extended = d; }
         if (m & 4096) { QueryResponseExtended d; if (w) { d.answer_index = ix; d.authority_index = ix; } q.response_extended = d; }
         if (m & 8192) q.asn = w ? std::string(300, '6') : std::string(); if (m & 16384) q.country_code = w ? std::string("CZE") : std::string("CZ"); if (m & 32768) q.round_trip_time = w ? INT64_MAX : 0;
-        P([&](CdnsEncoder& e) { return q.write(e, early, tps); }); break; }
-    case ST_AEC: { AddressEventCount x; x.ae_type = (AddressEventTypeValues)(w ? 5 : 0); x.ae_address_index = ix; x.ae_count = w ? UINT64_MAX : 1; if (m & 1) x.ae_code = V<uint8_t>(w, 3); if (m & 2) x.ae_transport_flags = (QueryResponseTransportFlagsMask)(w ? 255 : 0);
-        P([&](CdnsEncoder& e) { return x.write(e); }); break; }
+        V(q, [&](auto& x, CdnsEncoder& e) { return x.write(e, early, tps); }, [](auto& x, CdnsEncoder& e) { return x.write(e, Timestamp(0, 0), 1); }); break; }
+    case ST_AEC: { AddressEventCount x; x.ae_type = (AddressEventTypeValues)(w ? 5 : 0); x.ae_address_index = ix; x.ae_count = w ? UINT64_MAX : 1; if (m & 1) x.ae_code = VAL<uint8_t>(w, 3); if (m & 2) x.ae_transport_flags = (QueryResponseTransportFlagsMask)(w ? 255 : 0);
+        V(x, W, W); break; }
     case ST_MM: { MalformedMessage x; Timestamp early(w ? 5000 : 1000, 0); uint64_t tps = w ? 1 : 1000000ULL;
-        if (m & 1) x.time_offset = w ? Timestamp(1000, 0) : Timestamp(1000, 999999); if (m & 2) x.client_address_index = ix; if (m & 4) x.client_port = V<uint16_t>(w, 24); if (m & 8) x.message_data_index = ix;
-        P([&](CdnsEncoder& e) { return x.write(e, early, tps); }); break; }
-    case ST_STR: { StringItem s; static const size_t L[] = {0, 1, 23, 24, 255, 256, 2047, 5000}; s.data = std::string(L[m % 8], w ? '\xff' : 'a'); P([&](CdnsEncoder& e) { return s.write(e); }); break; }
-    case ST_IDX: { IndexListItem s; static const size_t L[] = {0, 1, 23, 24, 255, 256, 700, 3000}; s.list.assign(L[m % 8], ix); P([&](CdnsEncoder& e) { return s.write(e); }); break; }
+        if (m & 1) x.time_offset = w ? Timestamp(1000, 0) : Timestamp(1000, 999999); if (m & 2) x.client_address_index = ix; if (m & 4) x.client_port = VAL<uint16_t>(w, 24); if (m & 8) x.message_data_index = ix;
+        V(x, [&](auto& y, CdnsEncoder& e) { return y.write(e, early, tps); }, [](auto& y, CdnsEncoder& e) { return y.write(e, Timestamp(0, 0), 1); }); break; }
+    case ST_STR: { StringItem s; static const size_t L[] = {0, 1, 23, 24, 255, 256, 2047, 5000}; s.data = std::string(L[m % 8], w ? '\xff' : 'a'); V(s, W, W); break; }
+    case ST_IDX: { IndexListItem s; static const size_t L[] = {0, 1, 23, 24, 255, 256, 700, 3000}; s.list.assign(L[m % 8], ix); V(s, W, W); break; }
     case ST_SH: { StorageHints h; if (m & 1) { h.query_response_hints = 0; h.query_response_signature_hints = 0; } if (m & 2) { h.rr_hints = 0; h.other_data_hints = 0; } if (w) { h.query_response_hints |= 0x80000000u; h.rr_hints |= 0x80; }
-        P([&](CdnsEncoder& e) { return h.write(e); }); break; }
-    case ST_SP: { StorageParameters sp = mk_sp(m, w); P([&](CdnsEncoder& e) { return sp.write(e); }); break; }
-    case ST_CP: { CollectionParameters cp = mk_cp(m, w); P([&](CdnsEncoder& e) { return cp.write(e); }); break; }
+        V(h, W, W); break; }
+    case ST_SP: { StorageParameters sp = mk_sp(m, w); V(sp, W, W); break; }
+    case ST_CP: { CollectionParameters cp = mk_cp(m, w); V(cp, W, W); break; }
     case ST_BPAR: { // bits 0..1: collection parameters absent / present-empty / one member / all; bits 2..11: ten storage-parameter selections
         BlockParameters bp; static const uint32_t SPM[] = {0, 1, 32, 64, 127, 128, 256, 2, 4, 8 | 16}; uint32_t spm = 0; for (int i = 0; i < 10; i++) if (m & (4u << i)) spm |= SPM[i]; bp.storage_parameters = mk_sp(spm, w);
         switch (m & 3) { case 0: break; case 1: bp.collection_parameters = CollectionParameters(); break; case 2: bp.collection_parameters = mk_cp(4, w); break; default: bp.collection_parameters = mk_cp(1023, w); }
-        P([&](CdnsEncoder& e) { return bp.write(e); }); break; }
+        V(bp, W, W); break; }
     case ST_FP: { // bits 0..1: 1, 2, 3, 8 parameter sets; bit 2: private version absent; bit 3: sets alternate between "empty collection parameters" and "none"
         static const int NS[] = {1, 2, 3, 8}; std::vector<BlockParameters> bps;
         for (int i = 0; i < NS[m & 3]; i++) { BlockParameters bp; bp.storage_parameters = mk_sp(i % 2 ? 127 : 0, w); if (m & 8) { if (i % 2 == 0) bp.collection_parameters = CollectionParameters(); } else if (i % 3 == 1) bp.collection_parameters = mk_cp(1023, w); bps.push_back(bp); }
         FilePreamble fp(bps); if (m & 4) fp.m_private_version = boost::none; else fp.m_private_version = (uint8_t)(w ? 255 : 0); if (w) { fp.m_major_format_version = 255; fp.m_minor_format_version = 24; }
-        P([&](CdnsEncoder& e) { return fp.write(e); }); break; }
+        V(fp, W, W); break; }
     }
+}
+
+static void run_case(const Case& c, Result& R, std::vector<SV>& out) {
+    const std::string rep = c.str(), sn = SN[c.st];
+    visit(c, [&](auto& x, auto wr, auto) { probe(sn, rep, c.pad, [&](CdnsEncoder& e) { return wr(x, e); }, R, out); });
+}
+
+// Round trip of one structure: write(x) = B; a fresh object that reads B, and an object that first read the fully populated variant and then
+// reads B (the readers re-use objects), must both serialise to B again. No hand-written expectation is involved.
+template<class X, class Wr> static std::string ser_of(X& x, Wr wr) { std::vector<std::string> outs; { CdnsEncoder e(MemSink{&outs}, CborOutputCompression::NO_COMPRESSION); wr(x, e); } return outs.at(0); }
+static void run_roundtrip(const Case& c, Result& R, std::vector<SV>& out) {
+    const std::string rep = c.str(), sn = SN[c.st]; std::string full_bytes;
+    Case fc = c; fc.mask = (1u << NBITS[c.st]) - 1; fc.w = 1; if (c.st == ST_STR || c.st == ST_IDX) fc.mask = 6;
+    visit(fc, [&](auto& x, auto wr, auto) { full_bytes = ser_of(x, wr); });
+    visit(c, [&](auto& x, auto wr, auto wr2) {
+        using X = typename std::decay<decltype(x)>::type;
+        std::string B = ser_of(x, wr); R.count("traces"); R.count("transitions", 2); if (B.size() > 1) R.count("nontrivial");
+        auto rd = [&](X& y, const std::string& bytes, const char* what) { std::istringstream is(bytes); CdnsDecoder d(is); try { y.read(d); return true; } catch (std::exception& ex) { out.push_back({"serrt|" + sn + "|read-rejects", sn + "::read rejects what " + sn + "::write produced (" + what + "): " + ex.what() + " [" + rep + "]"}); return false; } };
+        X y{}; if (!rd(y, B, "fresh object")) return;
+        std::string B1 = ser_of(y, wr2);
+        if (B1 != B) out.push_back({"serrt|" + sn + "|fresh", sn + ": write(read(write(x))) differs from write(x): " + ref::hex(B).substr(0, 80) + " vs " + ref::hex(B1).substr(0, 80) + " [" + rep + "]"});
+        X z{}; { std::istringstream is(full_bytes); CdnsDecoder d(is); try { z.read(d); } catch (std::exception&) { R.outcome(sn + ":full-unreadable"); return; } }
+        if (!rd(z, B, "object used before")) return;
+        std::string B2 = ser_of(z, wr2);
+        if (B2 != B) out.push_back({"serrt|" + sn + "|reused-object", sn + ": an object that held other members before reads this item differently: " + ref::hex(B).substr(0, 80) + " vs " + ref::hex(B2).substr(0, 80) + " [" + rep + "]"});
+        R.outcome(sn + (B.size() <= 1 ? ":1" : B.size() < 24 ? ":small" : ":large"));
+    });
 }
 
 int main(int argc, char** argv) {
     Args a = Args::parse(argc, argv); Result total; bool T = a.thorough();
     auto done = [&](int rc) { a.finish(total); return rc; };
+    const bool RT = a.mode == "roundtrip"; const std::string which = a.kv.count("structs") ? a.kv["structs"] : std::string("all");
     if (!a.replay.empty()) { std::string s = slurp(a.replay); Case c; unsigned long pd; if (sscanf(s.c_str(), "st=%d;mask=%u;w=%d;pad=%lu", &c.st, &c.mask, &c.w, &pd) != 4 || c.st < 0 || c.st >= NST) return done(2); c.pad = pd;
-        Pool rp(1, 60); rp.run(1, [&](uint64_t, Result& R) { std::vector<SV> out; run_case(c, R, out); for (auto& v : out) R.violation(v.key, v.what, s); }, [&](uint64_t, const std::string& d, Result& R) { R.violation("ser|" + crash_key(d), d.substr(0, 1500), s); }, total);
+        Pool rp(1, 60); rp.run(1, [&](uint64_t, Result& R) { std::vector<SV> out; if (RT) run_roundtrip(c, R, out); else run_case(c, R, out); for (auto& v : out) R.violation(v.key, v.what, s); }, [&](uint64_t, const std::string& d, Result& R) { R.violation("ser|" + crash_key(d), d.substr(0, 1500), s); }, total);
         return done(total.viol.empty() ? 0 : 1); }
     std::vector<size_t> fills(std::begin(FILLS_Q), std::end(FILLS_Q));
     if (T) for (size_t f : std::vector<size_t>{2, 23, 24, 1000, 2000, 2030, 2035, 2042, 2044, 2045, 2048, 2049, 4095}) fills.push_back(f);
     for (size_t f : fills) base_size(f);
     std::vector<std::pair<int, uint32_t>> sm;   // (structure, member mask)
+    if (RT) fills = {0};
     for (int st = 0; st < NST; st++) {
+        if (which == "block" && st >= ST_SH) continue; if (which == "preamble" && st < ST_SH && st != ST_TS) continue;
         int nb = NBITS[st]; uint32_t full = (1u << nb) - 1; std::set<uint32_t> masks;
         if (nb <= 12) for (uint32_t m = 0; m <= full; m++) masks.insert(m);
         else { masks.insert(0); masks.insert(full); for (int i = 0; i < nb; i++) { masks.insert(1u << i); masks.insert(full & ~(1u << i)); for (int j = i + 1; j < nb; j++) { masks.insert((1u << i) | (1u << j)); if (T) masks.insert(full & ~((1u << i) | (1u << j))); } }
@@ -133,7 +164,7 @@ int main(int argc, char** argv) {
     pool.run(ntasks, [&](uint64_t ti, Result& R) {
         if (a.expired()) { R.deadline_hit = true; return; }
         for (uint64_t i = ti * chunk; i < std::min<uint64_t>(sm.size(), (ti + 1) * chunk); i++) for (int w = 0; w < 2; w++) for (size_t f : fills) {
-            Case c{sm[i].first, sm[i].second, w, f}; set_note(c.str()); std::vector<SV> out; run_case(c, R, out);
+            Case c{sm[i].first, sm[i].second, w, f}; set_note(c.str()); std::vector<SV> out; if (RT) run_roundtrip(c, R, out); else run_case(c, R, out);
             for (auto& v : out) R.violation(v.key, v.what, c.str()); }
         if (ti % 97 == 0) R.sample(Case{sm[ti * chunk].first, sm[ti * chunk].second, 0, 0}.str());
     }, [&](uint64_t, const std::string& d, Result& R) { R.violation("ser|" + crash_key(d), d.substr(0, 1500), pool.last_note); }, total);
